@@ -92,10 +92,20 @@ V7_HDR_W = [4, 4, 4, 4, 4]
 V7_REC_W = [4, 4, 4, 2, 2, 4, 4, 4, 4, 2, 2, 1, 1, 1, 1, 2, 2, 1, 1, 2, 4]
 
 
+def _fixed_rec(rng, widths):
+    """one V5/V7 record; one in six is SPARSE (all fields zero except 0-3 of them): idle / zero-filled slots, at any position"""
+    if rng.random() < 1 / 6:
+        r = [0] * len(widths)
+        for j in rng.sample(range(len(widths)), rng.choice([0, 0, 1, 2, 3])):
+            r[j] = rnat(rng, widths[j])
+        return r
+    return [rnat(rng, w) for w in widths]
+
+
 def msg_v5(rng, nrecs, proto=None):
     recs = []
     for _ in range(nrecs):
-        r = [rnat(rng, w) for w in V5_REC_W]
+        r = _fixed_rec(rng, V5_REC_W)
         if proto is not None:
             r[13] = proto
         recs.append(r)
@@ -105,7 +115,7 @@ def msg_v5(rng, nrecs, proto=None):
 def msg_v7(rng, nrecs, proto=None):
     recs = []
     for _ in range(nrecs):
-        r = [rnat(rng, w) for w in V7_REC_W]
+        r = _fixed_rec(rng, V7_REC_W)
         if proto is not None:
             r[13] = proto
         recs.append(r)
@@ -596,6 +606,12 @@ def fam_chain(rng, n, max_pkts=6, all_partitions=False):
             pos = rng.randrange(0, k + 1)
             msgs.insert(pos, {"raw": {"b": hx((10).to_bytes(2, "big") + rng.choice([0, 1, 8, 15, 16]).to_bytes(2, "big") + rbytes(rng, 12))}})
             k += 1
+        if rng.random() < 0.08:
+            # a V5 / V7 packet whose record block is longer than 65535 bytes (count * record size leaves 16 bits), not last
+            v = rng.choice([5, 7])
+            cnt = rng.choice([1365, 1366, 1367] if v == 5 else [1260, 1261, 1262])
+            msgs.insert(rng.randrange(0, k), msg_v5(rng, cnt) if v == 5 else msg_v7(rng, cnt))
+            k += 1
         ops = [op_new(0), op_parse(0, msgs=msgs, want=[]), op_new(1)]
         for m in msgs:
             ops.append(op_parse(1, msgs=[m], want=[]))
@@ -812,10 +828,13 @@ def fam_trunc(rng, n, fracs=None):
         pre = rand_packets(rng, ex, rng.randrange(0, 3))
         v = rng.choice([5, 7, 9, 10])
         if v in (5, 7):
-            last = (msg_v5 if v == 5 else msg_v7)(rng, rng.randrange(0, 4))
+            # mostly small packets; a fifth of them with a record count around the documented per-datagram maximum (30) and
+            # around the next byte / size boundaries, cut near the END (where a clamped or capped count would already be satisfied)
+            nrec = rng.randrange(0, 4) if rng.random() < 0.8 else rng.choice([29, 30, 31, 32, 33, 40, 63, 64, 65, 255, 256, 257])
+            last = (msg_v5 if v == 5 else msg_v7)(rng, nrec)
         else:
             last = rand_packets(rng, ex, 1, versions=(v,))[0]
-        for frac in (fracs or [rng.randrange(0, 1001)]):
+        for frac in (fracs or [rng.randrange(0, 1001) if rng.random() < 0.7 else rng.choice([900, 950, 980, 990, 999, 1000])]):
             ops = []
             for pid in (0, 1):
                 ops.append(op_new(pid))
@@ -1235,6 +1254,33 @@ def fam_orphan(rng, n):
     return out
 
 
+def _full_house(rng, proto):
+    types = V9_TYPES if proto == 9 else IP_TYPES
+    nat = {"ip4": 4, "ip6": 16, "mac": 6, "proto": 1}
+    fs = []
+    for nfield in COMMON_V9:
+        ty = types.get(nfield, "unknown")
+        w = nat.get(ty) or (2 if nfield in (7, 11) else 4)
+        fs.append({"typ": nfield, "len": w})
+    fs += [dict(f) for f in rng.sample(fs, rng.choice([0, 1, 3]))]
+    rng.shuffle(fs)
+    tid = rng.choice([256, 400, 999])
+
+    def content(f):
+        ty = types.get(f["typ"], "unknown")
+        return hx(value_for(rng, ty, f["len"]))
+    nrec = rng.choice([1, 2, 3])
+    if proto == 9:
+        t = {"id": tid, "fieldCount": len(fs), "fields": fs}
+        recs = [[content(f) for f in fs] for _ in range(nrec)]
+        return [{"v9": {"m": {"count": 2, "sysUpTime": rnat(rng, 4), "unixSecs": rnat(rng, 4), "seq": 1, "sourceId": 1,
+                              "sets": [{"templates": {"ts": [t], "pad": ""}}, {"data": {"id": tid, "recs": recs, "pad": ""}}]}}}]
+    t = {"id": tid, "fields": [dict(f, ent=None) for f in fs]}
+    recs = [[{"content": content(f), "form": "fixed"} for f in fs] for _ in range(nrec)]
+    return [{"ipfix": {"m": {"exportTime": rnat(rng, 4), "seq": 1, "odid": 1,
+                             "sets": [{"templates": {"ts": [t], "pad": ""}}, {"data": {"id": tid, "recs": recs, "pad": ""}}]}}}]
+
+
 def fam_common(rng, n):
     """C13: templates made of the projected fields (any subset/order, IPv4 or IPv6), several records
     and data sets; `flat` on a second parser with the same history"""
@@ -1243,6 +1289,10 @@ def fam_common(rng, n):
         ops = [op_new(0), op_new(1)]
         ex = Exporter(rng, common=True, simple_ipfix=True)
         calls = [rand_packets(rng, ex, rng.choice([1, 2])) for _ in range(rng.randrange(1, 4))]
+        if rng.random() < 0.3:
+            # a "full house": EVERY projected field (both address families, ports, protocol, first/last, both MACs) in one template,
+            # shuffled, some of them twice, with the width the library decodes into the kind the converter accepts
+            calls.append(_full_house(rng, rng.choice([9, 10])))
         for c in calls:
             ops.append(op_parse(0, msgs=c, want=["common"]))
             ops.append({"op": "flat", "p": 1, "msgs": c})
